@@ -544,6 +544,10 @@ func (t *TabularGraph) GetOutChannel(ctx context.Context, req chan gdbi.ElementL
 												if dstStr, err := getFieldString(data, edge.config.Data.ToField); err == nil {
 													if dstStr != "" {
 														dstID := edge.config.To + dstStr
+														if emitNull && t.GetVertex(dstID, false) == nil {
+															//a link to a row that is not there leads nowhere
+															continue
+														}
 														nReq := gdbi.ElementLookup{ID: dstID, Ref: r.Ref}
 														vReqs <- nReq
 														found = true
@@ -607,6 +611,10 @@ func (t *TabularGraph) GetInChannel(ctx context.Context, req chan gdbi.ElementLo
 												if dstStr, err := getFieldString(data, edge.config.Data.ToField); err == nil {
 													if dstStr != "" {
 														dstID := edge.config.To + dstStr
+														if emitNull && t.GetVertex(dstID, false) == nil {
+															//a link to a row that is not there leads nowhere
+															continue
+														}
 														nReq := gdbi.ElementLookup{ID: dstID, Ref: r.Ref}
 														vReqs <- nReq
 														found = true
